@@ -184,6 +184,16 @@ def make_helpers(exe):
         vs = [z3.FreshConst(z3.BitVecSort(WIDE) if isbv else z3.IntSort(), n) for n in names]
         return z3.Exists(vs, _b(f(*vs)))
 
+    def forall_real(f):
+        import inspect
+        vs = [z3.FreshConst(z3.RealSort(), n) for n in inspect.signature(f).parameters]
+        return z3.ForAll(vs, _b(f(*vs)))
+
+    def exists_real(f):
+        import inspect
+        vs = [z3.FreshConst(z3.RealSort(), n) for n in inspect.signature(f).parameters]
+        return z3.Exists(vs, _b(f(*vs)))
+
     def u64(x):
         if isinstance(x, PtrView):
             a = exe.ptr_to_int(x._p)
@@ -306,7 +316,7 @@ def make_helpers(exe):
         return z3.BoolVal(a._p.obj is b._p.obj and a._p.obj is not None)
 
     return dict(And=h_and, Or=h_or, Not=h_not, implies=h_implies, ite=h_ite, iff=h_iff, forall=forall,
-                exists=exists, u64=u64, is_pow2=is_pow2, arr=arr, off=off, NULL=NULL, pmod=pmod, elem=elem, tagat=tagat, at=at, imin=imin, imax=imax,
+                exists=exists, forall_real=forall_real, exists_real=exists_real, u64=u64, is_pow2=is_pow2, arr=arr, off=off, NULL=NULL, pmod=pmod, elem=elem, tagat=tagat, at=at, imin=imin, imax=imax,
                 iabs=iabs, lit=lit, sizeof=sizeof, num_of_int=num_of_int, byte_of_num=byte_of_num, bool_of_num=bool_of_num, num_zero=num_zero, trunc=trunc, isnan=isnan, fp=fp, real=real, same_obj=same_obj,
                 true=z3.BoolVal(True), false=z3.BoolVal(False), z3=z3, Select=z3.Select, Store=z3.Store,
                 fpLT=z3.fpLT, fpLEQ=z3.fpLEQ, fpGT=z3.fpGT, fpGEQ=z3.fpGEQ, fpEQ=z3.fpEQ, fpAbs=z3.fpAbs,
